@@ -48,7 +48,22 @@ type PoliciesData struct {
 
 type StreamsData struct {
 	stream        *streams.Stream
+	streamLock    sync.RWMutex // guards the stream pointer: reloads replace it while handlers read it
 	flowValidator *validation.Validator
+}
+
+// getStream returns the stream engine currently serving traffic.
+func (sd *StreamsData) getStream() *streams.Stream {
+	sd.streamLock.RLock()
+	defer sd.streamLock.RUnlock()
+	return sd.stream
+}
+
+// setStream publishes a new stream engine.
+func (sd *StreamsData) setStream(stream *streams.Stream) {
+	sd.streamLock.Lock()
+	defer sd.streamLock.Unlock()
+	sd.stream = stream
 }
 
 type HandlingDataManager struct {
@@ -104,7 +119,7 @@ func (rd *HandlingDataManager) Setup(telemetryWriter *logging.LunarTelemetryWrit
 		if err != nil {
 			return fmt.Errorf("failed to initialize metric manager: %w", err)
 		}
-		rd.metricManager.UpdateMetricsForFlow(rd.stream)
+		rd.metricManager.UpdateMetricsForFlow(rd.getStream())
 		return nil
 	}
 	rd.doctor.WithPolicies(rd.GetTxnPoliciesAccessor)
@@ -138,8 +153,8 @@ func (rd *HandlingDataManager) GetTxnPoliciesAccessor() *config.TxnPoliciesAcces
 }
 
 func (rd *HandlingDataManager) GetLoadedStreamsConfig() *network.ConfigurationData {
-	if rd.isStreamsEnabled && rd.stream != nil {
-		f := rd.stream.GetLoadedConfig()
+	if rd.isStreamsEnabled && rd.getStream() != nil {
+		f := rd.getStream().GetLoadedConfig()
 		return &f
 	}
 	return nil
@@ -233,7 +248,7 @@ func (rd *HandlingDataManager) initializeStreams() (err error) {
 	statusMsg.AddMessage(lunarEngine, "Engine: Lunar Flows")
 	_ = lunar_context.NewSharedState[int64]() // For Redis initialization
 	var previousHaProxyReq *config.HAProxyEndpointsRequest
-	if rd.stream != nil {
+	if rd.getStream() != nil {
 		previousHaProxyReq = rd.buildHAProxyFlowsEndpointsRequest()
 	}
 
@@ -248,9 +263,9 @@ func (rd *HandlingDataManager) initializeStreams() (err error) {
 	// Publish the new engine only once it is fully initialized: until then (and if
 	// initialization fails) the previous engine keeps serving traffic.
 	verifhook.Yield("reload.published-before-init")
-	rd.stream = stream
+	rd.setStream(stream)
 
-	rd.stream.InitializeHubCommunication()
+	rd.getStream().InitializeHubCommunication()
 	if err = config.WaitForProxyHealthcheck(); err != nil {
 		return fmt.Errorf("failed to wait for HAProxy healthcheck: %w", err)
 	}
@@ -320,7 +335,7 @@ func (rd *HandlingDataManager) handleOnError() func(http.ResponseWriter, *http.R
 		}
 
 		for failedTransactionID := range failedTransactions.FailedTransactions {
-			rd.stream.OnError(failedTransactionID)
+			rd.getStream().OnError(failedTransactionID)
 		}
 
 		SuccessResponse(writer, "Error logged successfully")
@@ -560,7 +575,7 @@ func (rd *HandlingDataManager) buildHAProxyFlowsEndpointsRequest() *config.HAPro
 	reqCaptureForAll := false
 
 	managedEndpoints := []*config.HAProxyEndpointData{}
-	for _, filters := range rd.stream.GetSupportedFilters() {
+	for _, filters := range rd.getStream().GetSupportedFilters() {
 		if len(filters) == 0 {
 			continue
 		}
@@ -664,6 +679,6 @@ func (rd *HandlingDataManager) reloadFlows() error {
 		return fmt.Errorf("failed to load metrics config: %v", err)
 	}
 
-	rd.metricManager.UpdateMetricsForFlow(rd.stream)
+	rd.metricManager.UpdateMetricsForFlow(rd.getStream())
 	return nil
 }
